@@ -111,7 +111,7 @@ Print Assumptions c15_seq_roundtrip_file.
 (* D8 (repaired): through "%f" the scanner stores a float; 123456789.123456 comes back as 123456792.0 *)
 Theorem c15_float_look_single_refuted :
   exists b b', decode_double b <> None /\
-    scan_num (Build_config nil nil true false true true true) (spec_f false) (print_num (spec_f false) (VFloat b))
+    scan_num (Build_config nil nil true false true true true true) (spec_f false) (print_num (spec_f false) (VFloat b))
     = Some (VFloat b', 16) /\ b = 4728057454355442549%N /\ b' = 4728057454548484096%N.
 Proof. exact RoundTripFloat.float_look_single_refuted. Qed.
 Print Assumptions c15_float_look_single_refuted.
